@@ -119,16 +119,21 @@ Qed.
 Lemma app_nil_eqb : forall a b, fds_eqb (a ++ b) [] = false -> a ++ b <> [].
 Proof. intros a b H E. rewrite E in H. discriminate. Qed.
 
-(* the select that is blocked on a stale snapshot can return *)
+(* the select that is blocked on a stale snapshot can return (or fail with EBADF,
+   when an fd of its snapshot has been closed) *)
 Lemma select_can_return : forall s r w,
   sp s = SSelecting r w -> mem 0 r = true -> 0 < waker s ->
-  exists rs ws s', step s (TSel, SelectRet rs ws []) = Some s'.
+  exists l s', step s (TSel, l) = Some s' /\ internal l = true /\
+               ((exists rs ws, l = SelectRet rs ws []) \/ l = SelectErr).
 Proof.
-  intros s r w E M W. exists (filter (readable s) r), (filter (writable s) w).
-  unfold step. simpl. rewrite E. rewrite !fds_eqb_refl. simpl.
-  assert (N : filter (readable s) r <> []).
-  { eapply filter_mem_nonempty; [exact M|]. unfold readable. simpl. apply Nat.ltb_lt. exact W. }
-  destruct (filter (readable s) r) as [|x l] eqn:F; [contradiction|]. simpl. eauto.
+  intros s r w E M W. destruct (has_dead s (r, w)) eqn:D.
+  - exists SelectErr. eexists. unfold step. simpl. rewrite E, D. split; [reflexivity|]. split; [reflexivity|]. right; reflexivity.
+  - exists (SelectRet (filter (readable s) r) (filter (writable s) w) []). 
+    unfold step. simpl. rewrite E, D. rewrite !fds_eqb_refl. simpl.
+    assert (N : filter (readable s) r <> []).
+    { eapply filter_mem_nonempty; [exact M|]. unfold readable. simpl. apply Nat.ltb_lt. exact W. }
+    destruct (filter (readable s) r) as [|x l] eqn:F; [contradiction|]. simpl.
+    eexists. split; [reflexivity|]. split; [reflexivity|]. left. eauto.
 Qed.
 
 (* ---------- (4) progress: no reachable non-closed state is stuck ---------- *)
@@ -142,14 +147,14 @@ Lemma progress_inv : forall s, Inv s -> lp s <> LClosed ->
   (exists e, internal (snd e) = true /\ enabled s e) \/ quiescent s.
 Proof.
   intros s I NC.
-  destruct I as [Ilock Iexcl Itok Iwait Ifresh Iw0 Isnap0 Iclosing Icwaker Ipend Ispawn1 Ispawn2 Iexit Ijoined Icbs Inw0].
-  destruct s as [lp0 sp0 lock0 args0 closing0 readers0 writers0 waker0 pend0 queue0 rdyr0 rdyw0 cbs0].
+  destruct I as [Ilock Iexcl Itok Iwait Ifresh Iw0 Isnap0 Iclosing Icwaker Ipend Ispawn1 Ispawn2 Iexit Ijoined Icbs Inw0 Inodead Idead Ierr Id0].
+  destruct s as [lp0 sp0 lock0 args0 closing0 readers0 writers0 waker0 pend0 queue0 rdyr0 rdyw0 cbs0 dead0].
   unfold tokens, tok_args, tok_sel, tok_loop, in_flight, spawned, quiescent in *. simpl in *.
   destruct pend0.
   { ex TLoop WakerSend. }
   (* the selector holds the lock: it can always leave the critical section *)
   assert (SH : sp0 = SHeld -> exists e, internal (snd e) = true /\
-              enabled (mk lp0 sp0 lock0 args0 closing0 readers0 writers0 waker0 false queue0 rdyr0 rdyw0 cbs0) e).
+              enabled (mk lp0 sp0 lock0 args0 closing0 readers0 writers0 waker0 false queue0 rdyr0 rdyw0 cbs0 dead0) e).
   { intros ->. destruct args0 as [[r w]|], closing0.
     - exists (TSel, Release). split; [reflexivity|]. unfold enabled, step, step_sel, must_wait; simpl. discriminate.
     - exists (TSel, Release). split; [reflexivity|]. unfold enabled, step, step_sel, must_wait; simpl. discriminate.
@@ -161,7 +166,7 @@ Proof.
                 sp0 <> SNotStarted -> sp0 <> SWaiting -> sp0 <> SDone ->
                 (forall r w, sp0 = SSelecting r w -> mem 0 r = true /\ 0 < waker0) ->
                 exists e, internal (snd e) = true /\
-                  enabled (mk lp0 sp0 lock0 args0 closing0 readers0 writers0 waker0 false queue0 rdyr0 rdyw0 cbs0) e).
+                  enabled (mk lp0 sp0 lock0 args0 closing0 readers0 writers0 waker0 false queue0 rdyr0 rdyw0 cbs0 dead0) e).
   { intros LH N1 N2 N3 SS. rewrite LH in Ilock.
     destruct sp0 eqn:Esp; try congruence.
     - exists (TSel, Acquire). split; [reflexivity|]. unfold enabled, step, step_sel, lock_free; simpl. rewrite Ilock. discriminate.
@@ -171,9 +176,11 @@ Proof.
     - exists (TSel, SelectCall r w). split; [reflexivity|]. unfold enabled, step, step_sel, snap_eqb; simpl.
       rewrite !fds_eqb_refl. simpl. discriminate.
     - destruct (SS r w eq_refl) as [M W].
-      destruct (select_can_return (mk lp0 (SSelecting r w) lock0 args0 closing0 readers0 writers0 waker0 false queue0 rdyr0 rdyw0 cbs0) r w eq_refl M W)
-        as (rs & ws & s' & Hs).
-      exists (TSel, SelectRet rs ws []). split; [reflexivity|]. unfold enabled. rewrite Hs. discriminate.
+      destruct (select_can_return (mk lp0 (SSelecting r w) lock0 args0 closing0 readers0 writers0 waker0 false queue0 rdyr0 rdyw0 cbs0 dead0) r w eq_refl M W)
+        as (l & s' & Hs & Hi & _).
+      exists (TSel, l). split; [exact Hi|]. unfold enabled. rewrite Hs. discriminate.
+    - exists (TSel, WakerPoll true). split; [reflexivity|]. unfold enabled, step, step_sel; simpl.
+      destruct (0 <? waker0) eqn:EW; [discriminate|]. apply Nat.ltb_ge in EW. specialize (Ierr eq_refl). lia.
     - exists (TSel, Post rs ws). split; [reflexivity|]. unfold enabled, step, step_sel, snap_eqb; simpl.
       rewrite !fds_eqb_refl. simpl. discriminate. }
   destruct lp0; simpl in *; try congruence.
@@ -198,20 +205,24 @@ Proof.
       * left. apply SEL; congruence.
       * (* SSelecting: either it can return, or the state is quiescent *)
         destruct args0 as [a|]; [simpl in Itok; lia|].
-        destruct (fds_eqb (filter (readable (mk LRun (SSelecting r w) lock0 None closing0 readers0 writers0 waker0 false [] rdyr0 rdyw0 cbs0)) r
-                           ++ filter (writable (mk LRun (SSelecting r w) lock0 None closing0 readers0 writers0 waker0 false [] rdyr0 rdyw0 cbs0)) w) []) eqn:EF.
+        destruct (has_dead (mk LRun (SSelecting r w) lock0 None closing0 readers0 writers0 waker0 false [] rdyr0 rdyw0 cbs0 dead0) (r, w)) eqn:HD.
+        { left. exists (TSel, SelectErr). split; [reflexivity|].
+          unfold enabled, step, step_sel. simpl. rewrite HD. discriminate. }
+        destruct (fds_eqb (filter (readable (mk LRun (SSelecting r w) lock0 None closing0 readers0 writers0 waker0 false [] rdyr0 rdyw0 cbs0 dead0)) r
+                           ++ filter (writable (mk LRun (SSelecting r w) lock0 None closing0 readers0 writers0 waker0 false [] rdyr0 rdyw0 cbs0 dead0)) w) []) eqn:EF.
         -- apply fds_eqb_eq in EF. apply app_eq_nil in EF. destruct EF as [EF1 EF2].
            destruct (Ifresh (r, w) eq_refl) as [Heq|[W|Hp]]; [|exfalso|discriminate].
            ++ inversion Heq; subst. right. repeat split; assumption.
            ++ pose proof (Isnap0 r w eq_refl) as M.
               eapply filter_mem_nonempty; [exact M| |exact EF1]. unfold readable. simpl. apply Nat.ltb_lt. exact W.
         -- left. eexists (TSel, SelectRet _ _ []). split; [reflexivity|].
-           unfold enabled, step, step_sel. simpl. rewrite !fds_eqb_refl. simpl. rewrite EF. simpl. discriminate.
+           unfold enabled, step, step_sel. simpl. rewrite !fds_eqb_refl. simpl. rewrite EF, HD. simpl. discriminate.
+      * left. apply SEL; congruence.
       * left. apply SEL; congruence.
       * rewrite Iexit in Iclosing by (right; reflexivity). discriminate.
     + ex TLoop (HandleEnter qr qw). unfold snap_eqb. simpl. rewrite !fds_eqb_refl. simpl. discriminate.
   - (* LHandle *)
-    destruct (next_cb (mk (LHandle rs ws) sp0 lock0 args0 closing0 readers0 writers0 waker0 false queue0 rdyr0 rdyw0 cbs0) rs ws)
+    destruct (next_cb (mk (LHandle rs ws) sp0 lock0 args0 closing0 readers0 writers0 waker0 false queue0 rdyr0 rdyw0 cbs0 dead0) rs ws)
       as [[[[k f] rs'] ws']|] eqn:En.
     + pose proof (next_cb_mem _ _ _ _ _ _ _ En) as [M _]. simpl in M.
       destruct f as [|f].
@@ -239,6 +250,7 @@ Proof.
     + left. apply SEL; congruence.
     + left. apply SEL; try congruence. intros r0 w0 E0. inversion E0; subst.
       split; [apply (Isnap0 r0 w0); destruct args0 as [a|]; [simpl in Itok; lia|reflexivity]|apply Icwaker; reflexivity].
+    + left. apply SEL; congruence.
     + left. apply SEL; congruence.
     + ex TLoop Joined.
   - (* LCloseRm *) ex TLoop (Remove KR 0).
